@@ -8,7 +8,7 @@ PROPS["C28"] = {
     "rule": "c28.exhaustive: every ID-syntax name up to length k over {a,B,z,_,Z,-,0,9} and every quoted body of <= 2 atoms over 17 atoms; c28.names: random IDs, quoted ids (escapes, Latin-1, astral, invalid UTF-8) and raw byte strings; all four styles per name; c28.grammar: grammars declaring two near-colliding terminals/nonterminals through compiler.Compile; c28.grammar also declares terminals with an explicit ID clause, name (ID), as the first, the second or both of the two terminals: the clause replaces the derived identifier in the collision check",
     "modelled": "util/ident/id.go Produce (UTF-8 range loop, charName, hex fallback, all four styles) step by step; IsValid restricted to ASCII output; the ID bookkeeping of compiler/resolver.go (ids map + error on reuse)",
     "partial": "the statement 'every admitted name gets a non-empty identifier' is false on the pinned code for `_`-only names (non-UpperCase styles) and `''`: known findings, proved as C28_nonempty_refuted",
-    "level_text": "Universal Coq theorems about the step-by-step model of ident.Produce: for every byte string and each of the four styles the result is ASCII [A-Za-z0-9_] not starting with a digit (valid whenever non-empty); every quoted name and every name with an ASCII letter/digit gives a non-empty identifier; the unrestricted non-emptiness claim is refuted in Coq by `_` and `''` (two known findings); the resolver keeps IDs unique unless it reports an error. The model is compared byte for byte with ident.Produce on exhaustive short names and random long ones (Latin-1, astral, invalid UTF-8), and the collision report is compared through compiler.Compile.",
+    "level_text": "Universal Coq theorems about the step-by-step model of ident.Produce: for every byte string and each of the four styles the result is ASCII [A-Za-z0-9_] not starting with a digit (valid whenever non-empty); every quoted name and every name with an ASCII letter/digit gives a non-empty identifier; the unrestricted non-emptiness claim is refuted in Coq by `_` and `''` (two known findings); the resolver keeps IDs unique unless it reports an error; in reporting form (C28_colliding_names_are_reported): Produce is not injective (foo-bar / foo_bar), but for every list of declared names and every assignment of styles, two different declared names with the same identifier always make the resolver report an error, and without a reported error the identifier determines the name (C28_produce_injective_on_declared_unless_reported). The model is compared byte for byte with ident.Produce on exhaustive short names and random long ones (Latin-1, astral, invalid UTF-8), and the collision report is compared through compiler.Compile.",
     "level_note": "Trusted: Coq kernel, extraction, glue. Names are restricted to the tm ID / quoted_id token syntax for the validity oracle (raw byte strings only feed the correspondence).",
     "technique": "Coq proof over a Gallina model of Produce + extracted-model differential correspondence",
     "assumptions": [],
